@@ -171,19 +171,23 @@ class PropertyRun:
         for v in self.vcs:
             neg = z3.Not(v.goal) if v.expect == "unsat" else z3.BoolVal(True)
             smt = solve.vc_to_smt2(v.hyps, neg, self.vc_axioms[v.name])
-            to = FP_TIMEOUT if "fp." in smt[:200000] and "FloatingPoint" in smt else Z3_TIMEOUT
+            to = FP_TIMEOUT if "FloatingPoint" in smt else Z3_TIMEOUT
+            if v.expect == "sat":
+                to = 2.0      # reachability probes: only `unsat` (vacuity) matters; unknown = not refuted
             items.append((v.name, smt, to))
         self._smt = {n: s for n, s, _ in items}
         t0 = time.time()
-        self.results = solve.discharge(items, workers=16, scratch=os.path.join(ROOT, ".scratch"))
+        probes = {v.name for v in self.vcs if v.expect == "sat"}
+        self.results = solve.discharge([i for i in items if i[0] not in probes], workers=16, scratch=os.path.join(ROOT, ".scratch"))
+        self.results.update(solve.discharge([i for i in items if i[0] in probes], workers=16, scratch=os.path.join(ROOT, ".scratch"), use_cvc5=False))
         # escalation for unknowns on proof obligations: 10x budget
-        unk = [(n, s, t * 10) for (n, s, t) in items if self.results[n]["result"] not in ("sat", "unsat")
+        unk = [(n, s, t * 3) for (n, s, t) in items if self.results[n]["result"] not in ("sat", "unsat")
                and self._vc(n).expect == "unsat"]
         if unk:
-            r2 = solve.discharge(unk, workers=16, cvc5_timeout=120.0, scratch=os.path.join(ROOT, ".scratch"))
+            r2 = solve.discharge(unk, workers=16, cvc5_timeout=30.0, scratch=os.path.join(ROOT, ".scratch"))
             for n, r in r2.items():
                 if r["result"] in ("sat", "unsat"):
-                    r["reason"] = "escalated 10x; " + r.get("reason", "")
+                    r["reason"] = "escalated 3x; " + r.get("reason", "")
                     self.results[n] = r
         self.solve_wall = time.time() - t0
 
@@ -195,6 +199,7 @@ class PropertyRun:
 
     def classify(self):
         per_fn_canary: Dict[str, List[str]] = {}
+        undecided_fns: Dict[str, VC] = {}
         for v in self.vcs:
             r = self.results[v.name]["result"]
             if v.expect == "sat":
@@ -210,6 +215,27 @@ class PropertyRun:
                 self.handle_counterexample(v)
             else:
                 self.undecided.append(v.name)
+                undecided_fns.setdefault(v.fn, v)
+        # an obligation neither solver decides: search for a failing input with the same contract on the real code
+        for fn_key, v in undecided_fns.items():
+            c = self.vc_contract.get(v.name)
+            nat = getattr(c, "native", None) if c is not None else None
+            if not nat or "search" not in nat:
+                continue
+            try:
+                t0 = time.time()
+                for vals in nat["search"](random.Random(self.seed)):
+                    res = nat["run"](self.reg, c, vals)
+                    if res.get("pre_ok") and res.get("failed"):
+                        self.violations.append({"obligation": v.name, "function": v.fn, "kind": v.kind, "clause": res["failed"][0],
+                                                "solver": self.results[v.name], "search_input": vals, "native_replay": res,
+                                                "confirmed_on_real_code": True, "key": f"{v.fn.split(':')[-1]}/{v.kind}",
+                                                "note": "solver undecided; failing input found by the contract evaluated on the real code"})
+                        break
+                    if time.time() - t0 > 30:
+                        break
+            except Exception as e:  # noqa
+                self.checker_errors.append(f"native search for {fn_key} crashed: {e!r}")
         for fn, rs in per_fn_canary.items():
             if rs and all(x == "unsat" for x in rs):
                 self.checker_errors.append(f"canary: no exit of {fn} is reachable (contradictory contract/axioms)")
